@@ -11,7 +11,7 @@
 
   Property theorems only; helper lemmas and the rational closed forms live in SLV/Refine/C05Lemmas.lean
   (X has `n` values, Y has `m`; `cb x y`, `cu x` the conditionals; `ax`, `ay` the base rates; ε = `f.eps`):
-    `InvHyp cb cu ax ay`   conditionals are well-formed simplexes, `ax x > 0`, `Σ ax = 1`, `ay y > 0`, `Σ ay = 1`
+    `InvHyp cb cu ax ay`   conditionals are well-formed simplexes, `ax x > 0`, `Σ ax = 1`, `ay y ≥ 0`, `Σ ay = 1`
     `Pc cb cu ay x y = cb x y + ay y * cu x`                 P(y|x)                    (from C04Lemmas)
     `zcol y    = ∀ x, |P(y|x)| ≤ ε`                            the model's zero-column test
     `qy y      = Σ_x ax x * P(y|x)`                            evidence
@@ -21,20 +21,20 @@
     `maxUxy y  = min_x temp y x`
     `uyx x     = C09.uhat f (cb x) ay (cu x)`                  `max_uncertainty` of the conditional for x
     `weights x = if Σ uyx = 0 then 0 else uyx x / Σ uyx`
-    `maxUyx x  = min_y P(y|x) / ay y`
+    `maxUyx x  = min over {y : |ay y| > ε} of P(y|x) / ay y`  (1 if there is no such y)
     `weightedU x = if |maxUyx x| ≤ ε then 0 else weights x * uyx x / maxUyx x`,  `wprop = Σ_x weightedU x`
     `phi y     = wprop + irrel y - wprop * irrel y`
     `uI y      = maxUxy y * phi y`,   `bI y x = post y x - uI y * ax x`         the inverted conditionals
   All statements are about the executable model `inverse` / `abduceWith` / `abduce` (SLV/Model/Cond.lean)
   at the exact semantics `XQ f`, for every `n`, `m` (`0 < n`, `0 < m` follow from `Σ ax = 1`, `Σ ay = 1`).
 
-  Tolerance bands.  The refinement `C05_refines`, Bayes' theorem, the normaliser and the irrelevance /
-  zero-column theorems need no tolerance hypothesis at all (a column that fails the model's test
-  `∀ x, |P(y|x)| ≤ ε` has positive evidence; one that passes it is treated as a zero column, which is a
-  well-formed outcome too).  Well-formedness (`b ≥ 0`, `u ≤ 1`) and everything that rests on it
-  (abduction through C04) need `hay : ∀ y, ε < ay y`: below that band `max_uncertainty` skips the entry
-  `y` while `max_u_yx` does not, `weighted_u_yx[x] = weights[x]·u_yx[x]/max_u_yx[x]` can exceed
-  `weights[x]`, and `wprop` can exceed 1.
+  Tolerance bands.  No tolerance-band hypothesis is needed any more (model after fix e624e49: `max_u_yx`
+  skips the values of `Y` whose base rate passes `is_zero`, exactly as `max_uncertainty` does, so
+  `u_yx[x] = min(1, max_u_yx[x])` and every term of `wprop` is at most the corresponding weight).  The base
+  rate on `Y` may even contain zeros.  A column that fails the model's test `∀ x, |P(y|x)| ≤ ε` has
+  positive evidence; one that passes it is treated as a zero column, which is a well-formed outcome
+  too.  The only theorem with a band hypothesis is the observation `C05_wprop_one` (`∀ y, ε < ay y`).
+  What the model did before that fix on a base rate inside the band: SLV/Props/PinnedC05.lean.
 -/
 import SLV.Refine.C05Lemmas
 import SLV.Props.C04
@@ -51,8 +51,8 @@ variable {cb : Fin n → Fin m → ℚ} {cu : Fin n → ℚ} {ax : Fin n → ℚ
 /-! ### 1. refinement -/
 
 /-- the model on lifted well-formed inputs returns the lifted rational table `(bI, uI)`: every division
-    has a non-zero denominator (evidence of a column failing the zero test; `ay y`; `Σ u_yx` and
-    `max_u_yx[x]` behind their guards) and the final normaliser is exactly 1 -/
+    has a non-zero denominator (evidence of a column failing the zero test; `ay y` behind the `is_zero`
+    filter; `Σ u_yx` and `max_u_yx[x]` behind their guards) and the final normaliser is exactly 1 -/
 theorem C05_refines (h : InvHyp cb cu ax ay) :
     inverse (condTab cb cu f) (liftT ax) (liftT ay)
       = condTab (bI f cb cu ax ay) (uI f cb cu ax ay) f :=
@@ -82,39 +82,55 @@ theorem C05_irrel_char (h : InvHyp cb cu ax ay) (y : Fin m) :
   ⟨_, _, rfl, (vmax_spec h.npos _).1, (vmax_spec h.npos _).2, (vmin_spec h.npos _).1,
     (vmin_spec h.npos _).2⟩
 
-/-- `maxUyx x = min_y P(y|x)/a(y)`; above the guard band it is also the model's `max_uncertainty` of the
-    conditional for `x`, and it lies in [0,1] -/
-theorem C05_uyx_char (h : InvHyp cb cu ax ay) (hay : ∀ y, f.eps < ay y) (x : Fin n) :
-    uyx f cb cu ay x = maxUyx cb cu ay x ∧
-    (∀ y, maxUyx cb cu ay x ≤ (cb x y + ay y * cu x) / ay y) ∧
-    (∃ y, maxUyx cb cu ay x = (cb x y + ay y * cu x) / ay y) ∧
-    0 ≤ maxUyx cb cu ay x ∧ maxUyx cb cu ay x ≤ 1 :=
-  ⟨uyx_eq_maxUyx h hay x, (vmin_spec h.mpos _).1, (vmin_spec h.mpos _).2, maxUyx_nonneg h x,
-    maxUyx_le_one h x⟩
+/-- `maxUyx x` is the least `P(y|x)/a(y)` over the values of `Y` with `a(y) > ε` (1 if there is none); the
+    model's `max_uncertainty` of the conditional for `x` is `min(1, maxUyx x)` -/
+theorem C05_uyx_char (h : InvHyp cb cu ax ay) (x : Fin n) :
+    uyx f cb cu ay x = min 1 (maxUyx f cb cu ay x) ∧
+    (∀ y, f.eps < ay y → maxUyx f cb cu ay x ≤ (cb x y + ay y * cu x) / ay y) ∧
+    (((∀ y, ay y ≤ f.eps) ∧ maxUyx f cb cu ay x = 1) ∨
+      ∃ y, f.eps < ay y ∧ maxUyx f cb cu ay x = (cb x y + ay y * cu x) / ay y) ∧
+    0 ≤ maxUyx f cb cu ay x := by
+  have hiff : ∀ y, ¬ |ay y| ≤ f.eps ↔ f.eps < ay y := fun y => by
+    rw [abs_of_nonneg (h.hay0 y), not_le]
+  obtain ⟨s1, s2⟩ := maxUyx_spec (f := f) (cb := cb) (cu := cu) (ay := ay) x
+  refine ⟨uyx_eq_min x, fun y hy => s1 y ((hiff y).mpr hy), ?_, maxUyx_nonneg h x⟩
+  rcases s2 with ⟨ha, e⟩ | ⟨y, hy, e⟩
+  · left
+    exact ⟨fun y => by have := ha y; rwa [abs_of_nonneg (h.hay0 y)] at this, e⟩
+  · right
+    exact ⟨y, (hiff y).mp hy, e⟩
 
-/-- the weighted proportional uncertainty: each term is `weights x` or 0, the weights are non-negative
-    and sum to at most one, hence `wprop ∈ [0,1]` -/
-theorem C05_wprop_char (h : InvHyp cb cu ax ay) (hay : ∀ y, f.eps < ay y) :
-    (∀ x, weightedU f cb cu ay x
-        = if |maxUyx cb cu ay x| ≤ f.eps then 0 else weights f cb cu ay x) ∧
+/-- when every base rate on `Y` is above the band, `maxUyx x ≤ 1` and `max_uncertainty` equals it -/
+theorem C05_uyx_char_above_band (h : InvHyp cb cu ax ay) (hay : ∀ y, f.eps < ay y) (x : Fin n) :
+    uyx f cb cu ay x = maxUyx f cb cu ay x ∧ maxUyx f cb cu ay x ≤ 1 :=
+  ⟨uyx_eq_maxUyx h hay x, maxUyx_le_one h hay x⟩
+
+/-- the weighted proportional uncertainty: each term lies between 0 and `weights x` (it is
+    `weights x · min(1, maxUyx x)/maxUyx x`, or 0 behind the guard), the weights are non-negative and sum
+    to at most one, hence `wprop ∈ [0,1]` -/
+theorem C05_wprop_char (h : InvHyp cb cu ax ay) :
+    (∀ x, 0 ≤ weightedU f cb cu ay x ∧ weightedU f cb cu ay x ≤ weights f cb cu ay x) ∧
+    (∀ x, maxUyx f cb cu ay x ≤ 1 → weightedU f cb cu ay x
+        = if |maxUyx f cb cu ay x| ≤ f.eps then 0 else weights f cb cu ay x) ∧
     (∀ x, 0 ≤ weights f cb cu ay x) ∧ ∑ x, weights f cb cu ay x ≤ 1 ∧
     0 ≤ wprop f cb cu ay ∧ wprop f cb cu ay ≤ 1 := by
-  refine ⟨?_, weights_nonneg h, sum_weights_le_one, wprop_nonneg h hay, wprop_le_one h hay⟩
-  intro x
+  refine ⟨weightedU_bounds h, ?_, weights_nonneg h, sum_weights_le_one, wprop_nonneg h,
+    wprop_le_one h⟩
+  intro x hle
   unfold weightedU
   split
   · rfl
   · rename_i hne
-    have hne0 : maxUyx cb cu ay x ≠ 0 := by
+    have hne0 : maxUyx f cb cu ay x ≠ 0 := by
       intro h0; apply hne; rw [h0]; simpa using le_of_lt (XQ.eps_pos f)
-    rw [uyx_eq_maxUyx h hay x, mul_div_assoc, div_self hne0, mul_one]
+    rw [uyx_eq_min, min_eq_right hle, mul_div_assoc, div_self hne0, mul_one]
 
 /-- observation: as soon as every conditional has `min_y P(y|x)/a(y) > ε`, the weighted proportional
     uncertainty is 1 — whatever the uncertainty masses `cu` of the conditionals are (the model feeds
     `max_uncertainty` of each conditional, not its own uncertainty mass, into the ratio) — and the
     inverted opinions carry the largest uncertainty compatible with Bayes' posterior -/
 theorem C05_wprop_one (h : InvHyp cb cu ax ay) (hay : ∀ y, f.eps < ay y)
-    (hall : ∀ x, f.eps < maxUyx cb cu ay x) :
+    (hall : ∀ x, f.eps < maxUyx f cb cu ay x) :
     wprop f cb cu ay = 1 ∧ ∀ y, phi f cb cu ay y = 1 ∧ uI f cb cu ax ay y = maxUxy f cb cu ax ay y := by
   have hw := wprop_eq_one h hay hall
   refine ⟨hw, fun y => ?_⟩
@@ -150,38 +166,38 @@ theorem C05_bayes_dist (h : InvHyp cb cu ax ay) (y : Fin m)
 /-! ### 3. well-formedness -/
 
 /-- every inverted opinion is a well-formed simplex -/
-theorem C05_wf (h : InvHyp cb cu ax ay) (hay : ∀ y, f.eps < ay y) (y : Fin m) :
+theorem C05_wf (h : InvHyp cb cu ax ay) (y : Fin m) :
     (∀ x, 0 ≤ bI f cb cu ax ay y x) ∧ 0 ≤ uI f cb cu ax ay y ∧ uI f cb cu ax ay y ≤ 1 ∧
     ∑ x, bI f cb cu ax ay y x + uI f cb cu ax ay y = 1 :=
-  ⟨bI_nonneg h hay y, uI_nonneg h hay y, uI_le_one h hay y, sum_bI h y⟩
+  ⟨bI_nonneg h y, uI_nonneg h y, uI_le_one h y, sum_bI h y⟩
 
 /-- … as an opinion with base rate `ax` (the `WF` predicate of C09) -/
-theorem C05_wf_opinion (h : InvHyp cb cu ax ay) (hay : ∀ y, f.eps < ay y) (y : Fin m) :
+theorem C05_wf_opinion (h : InvHyp cb cu ax ay) (y : Fin m) :
     WF (bI f cb cu ax ay y) (uI f cb cu ax ay y) ax :=
-  ⟨bI_nonneg h hay y, uI_nonneg h hay y, sum_bI h y, fun x => le_of_lt (h.hax0 x), h.hax⟩
+  ⟨bI_nonneg h y, uI_nonneg h y, sum_bI h y, fun x => le_of_lt (h.hax0 x), h.hax⟩
 
 /-- Bayes' theorem on the model: the projection (under `ax`) of the inverted opinion for `y` is
     `P(x|y) = a(x) P(y|x) / Σ_x' a(x') P(y|x')` -/
-theorem C05_bayes (h : InvHyp cb cu ax ay) (hay : ∀ y, f.eps < ay y) (y : Fin m)
+theorem C05_bayes (h : InvHyp cb cu ax ay) (y : Fin m)
     (hnz : ∃ x, f.eps < cb x y + ay y * cu x) :
     ((inverse (condTab cb cu f) (liftT ax) (liftT ay))[y]).projection (liftT ax)
       = liftT (fun x => ax x * (cb x y + ay y * cu x) / ∑ x', ax x' * (cb x' y + ay y * cu x')) := by
   rw [C05_refines h, condTab_get]
   unfold Simplex.projection
   simp only []
-  rw [C09_projection (C05_wf_opinion h hay y)]
+  rw [C09_projection (C05_wf_opinion h y)]
   congr 1
   funext x
   exact C05_bayes_closed h y hnz x
 
 /-- in every case (zero column or not) the projection of the inverted opinion is `post y` -/
-theorem C05_projection (h : InvHyp cb cu ax ay) (hay : ∀ y, f.eps < ay y) (y : Fin m) :
+theorem C05_projection (h : InvHyp cb cu ax ay) (y : Fin m) :
     ((inverse (condTab cb cu f) (liftT ax) (liftT ay))[y]).projection (liftT ax)
       = liftT (post f cb cu ax ay y) := by
   rw [C05_refines h, condTab_get]
   unfold Simplex.projection
   simp only []
-  rw [C09_projection (C05_wf_opinion h hay y)]
+  rw [C09_projection (C05_wf_opinion h y)]
   congr 1
   funext x
   exact proj_bI y x
@@ -191,7 +207,7 @@ theorem C05_projection (h : InvHyp cb cu ax ay) (hay : ∀ y, f.eps < ay y) (y :
 /-- the uncertainty is `maxUxy y` scaled by `φ y = wprop ⊔ irrel y ∈ [0,1]`; `maxUxy y = min_x P(x|y)/a(x)`
     is the largest uncertainty compatible with the projection `post y` under the base rate `ax`: with a
     larger one some belief mass would be negative -/
-theorem C05_u_bound (h : InvHyp cb cu ax ay) (hay : ∀ y, f.eps < ay y) (y : Fin m) :
+theorem C05_u_bound (h : InvHyp cb cu ax ay) (y : Fin m) :
     uI f cb cu ax ay y = maxUxy f cb cu ax ay y * phi f cb cu ay y ∧
     phi f cb cu ay y = wprop f cb cu ay + irrel cb cu ay y - wprop f cb cu ay * irrel cb cu ay y ∧
     0 ≤ wprop f cb cu ay ∧ wprop f cb cu ay ≤ 1 ∧
@@ -203,8 +219,8 @@ theorem C05_u_bound (h : InvHyp cb cu ax ay) (hay : ∀ y, f.eps < ay y) (y : Fi
     (∀ u', maxUxy f cb cu ax ay y < u' → ∃ x, post f cb cu ax ay y x - u' * ax x < 0) := by
   have hdiv : ∀ x, post f cb cu ax ay y x / ax x = temp f cb cu ax ay y x := by
     intro x; unfold post; exact mul_div_cancel_right₀ _ (ne_of_gt (h.hax0 x))
-  refine ⟨rfl, rfl, wprop_nonneg h hay, wprop_le_one h hay, irrel_nonneg h y, irrel_le_one h y,
-    phi_nonneg h hay y, phi_le_one h hay y, uI_le_maxUxy h hay y, ?_, ?_, ?_⟩
+  refine ⟨rfl, rfl, wprop_nonneg h, wprop_le_one h, irrel_nonneg h y, irrel_le_one h y,
+    phi_nonneg h y, phi_le_one h y, uI_le_maxUxy h y, ?_, ?_, ?_⟩
   · intro x; rw [hdiv]; exact (maxUxy_spec h y).1 x
   · obtain ⟨x, e⟩ := (maxUxy_spec (f := f) h y).2
     exact ⟨x, by rw [hdiv]; exact e⟩
@@ -274,58 +290,57 @@ end abduction
 variable {wb : Fin m → ℚ} {wu : ℚ}
 
 /-- the hypotheses of C04 hold for the opinion on `Y` and the inverted table -/
-theorem C05_abduce_hyp (h : InvHyp cb cu ax ay) (hay : ∀ y, f.eps < ay y) (hw : WF wb wu ay) :
+theorem C05_abduce_hyp (h : InvHyp cb cu ax ay) (hw : WF wb wu ay) :
     SLV.C04.Hyp wb ay wu (bI f cb cu ax ay) (uI f cb cu ax ay) ax :=
-  toC04 h hay hw
+  toC04 h hw
 
 /-- abduction on lifted inputs returns the lifted deduction (C04's closed form `bRes`, `uRes`) of the
     opinion `(wb, wu, ay)` through the inverted table `(bI, uI)` under the base rate `ax` -/
-theorem C05_abduce_refines (h : InvHyp cb cu ax ay) (hay : ∀ y, f.eps < ay y) (hw : WF wb wu ay) :
+theorem C05_abduce_refines (h : InvHyp cb cu ax ay) (hw : WF wb wu ay) :
     abduceWith (⟨liftT wb, XQ.fin wu⟩ : Simplex (XQ f) m) (condTab cb cu f) (liftT ax) (liftT ay)
       = ⟨liftT (bRes wb ay wu (bI f cb cu ax ay) (uI f cb cu ax ay) ax),
          XQ.fin (uRes wb ay wu (bI f cb cu ax ay) (uI f cb cu ax ay) ax), liftT ax⟩ := by
   rw [C05_abduce_eq, C05_refines h]
-  exact SLV.Props.C04.C04_refines (C05_abduce_hyp h hay hw)
+  exact SLV.Props.C04.C04_refines (C05_abduce_hyp h hw)
 
 /-- the abduced opinion is well-formed -/
-theorem C05_abduce_wf (h : InvHyp cb cu ax ay) (hay : ∀ y, f.eps < ay y) (hw : WF wb wu ay) :
+theorem C05_abduce_wf (h : InvHyp cb cu ax ay) (hw : WF wb wu ay) :
     WF (bRes wb ay wu (bI f cb cu ax ay) (uI f cb cu ax ay) ax)
       (uRes wb ay wu (bI f cb cu ax ay) (uI f cb cu ax ay) ax) ax :=
-  SLV.Props.C04.C04_wf_opinion (C05_abduce_hyp h hay hw)
+  SLV.Props.C04.C04_wf_opinion (C05_abduce_hyp h hw)
 
 /-- … its uncertainty is at most one (with `WF`: all masses in [0,1], summing to one) -/
-theorem C05_abduce_u_le_one (h : InvHyp cb cu ax ay) (hay : ∀ y, f.eps < ay y) (hw : WF wb wu ay) :
+theorem C05_abduce_u_le_one (h : InvHyp cb cu ax ay) (hw : WF wb wu ay) :
     uRes wb ay wu (bI f cb cu ax ay) (uI f cb cu ax ay) ax ≤ 1 :=
-  (SLV.Props.C04.C04_wf (C05_abduce_hyp h hay hw)).2.2.1
+  (SLV.Props.C04.C04_wf (C05_abduce_hyp h hw)).2.2.1
 
 /-- … and carries the supplied base rate -/
-theorem C05_abduce_base_rate (h : InvHyp cb cu ax ay) (hay : ∀ y, f.eps < ay y) (hw : WF wb wu ay) :
+theorem C05_abduce_base_rate (h : InvHyp cb cu ax ay) (hw : WF wb wu ay) :
     (abduceWith (⟨liftT wb, XQ.fin wu⟩ : Simplex (XQ f) m) (condTab cb cu f) (liftT ax)
       (liftT ay)).a = liftT ax := by
-  rw [C05_abduce_refines h hay hw]
+  rw [C05_abduce_refines h hw]
 
 /-- its projection is `P(x) = Σ_y P(y) P(x|y)` with `P(y) = b(y) + a(y) u` the projection of the opinion
     on `Y` under `ay` and `P(x|y) = post y x` the projection of the inverted opinion for `y` under `ax`
     (`C05_projection`; the Bayes posterior whenever the column is not a zero column, `C05_post_char`) -/
-theorem C05_abduce_projection (h : InvHyp cb cu ax ay) (hay : ∀ y, f.eps < ay y) (hw : WF wb wu ay) :
+theorem C05_abduce_projection (h : InvHyp cb cu ax ay) (hw : WF wb wu ay) :
     (abduceWith (⟨liftT wb, XQ.fin wu⟩ : Simplex (XQ f) m) (condTab cb cu f) (liftT ax)
       (liftT ay)).projection
       = liftT (fun x => ∑ y, (wb y + ay y * wu) * post f cb cu ax ay y x) := by
   rw [C05_abduce_eq, C05_refines h]
   show (deduceOf (⟨liftT wb, XQ.fin wu, liftT ay⟩ : Opinion (XQ f) m) _ _).projection = _
-  rw [SLV.Props.C04.C04_projection (C05_abduce_hyp h hay hw)]
+  rw [SLV.Props.C04.C04_projection (C05_abduce_hyp h hw)]
   congr 1
   funext x
   exact Finset.sum_congr rfl fun y _ => by rw [proj_bI]
 
 /-- … in particular, when no column passes the model's zero test, Bayes' posterior throughout -/
-theorem C05_abduce_projection_bayes (h : InvHyp cb cu ax ay) (hay : ∀ y, f.eps < ay y)
-    (hw : WF wb wu ay) (hnz : ∀ y, ∃ x, f.eps < cb x y + ay y * cu x) :
+theorem C05_abduce_projection_bayes (h : InvHyp cb cu ax ay) (hw : WF wb wu ay) (hnz : ∀ y, ∃ x, f.eps < cb x y + ay y * cu x) :
     (abduceWith (⟨liftT wb, XQ.fin wu⟩ : Simplex (XQ f) m) (condTab cb cu f) (liftT ax)
       (liftT ay)).projection
       = liftT (fun x => ∑ y, (wb y + ay y * wu) *
           (ax x * (cb x y + ay y * cu x) / ∑ x', ax x' * (cb x' y + ay y * cu x'))) := by
-  rw [C05_abduce_projection h hay hw]
+  rw [C05_abduce_projection h hw]
   congr 1
   funext x
   exact Finset.sum_congr rfl fun y _ => by
@@ -343,23 +358,7 @@ theorem C05_abduce_projection_dist (h : InvHyp cb cu ax ay) (hw : WF wb wu ay) :
     simp only [← Finset.mul_sum, sum_post h, mul_one]
     exact sum_proj hw
 
-/-! ### 7. the hypothesis `hay` cannot be dropped -/
-
-/-- finding: with a strictly positive base rate on `Y` that lies inside the guard band (`0 < ay y₀ ≤ ε`,
-    here `ay y₀ = 2⁻²⁴` at `f32`), well-formed conditionals and `ax = (1/2, 1/2)`, the model returns an
-    inverted opinion with a belief mass below -1/10: `max_uncertainty` skips `y₀` (`u_yx[x₀] = 1`) while
-    `max_u_yx[x₀] = P(y₀|x₀)/ay y₀ = 1/2` does not, so `weighted_u_yx[x₀] = 2·weights[x₀]`,
-    `wprop ≈ 1.8 > 1`, `φ y₁ ≈ 1.6 > 1` and `u > maxUxy y₁`.  (Data: `SLV.C05.Witness`.) -/
-theorem C05_wf_fails_below_band :
-    ∃ (cb : Fin 2 → Fin 2 → ℚ) (cu ax ay : Fin 2 → ℚ), InvHyp cb cu ax ay ∧
-      ∃ q : ℚ, q < -(1 / 10) ∧
-        ((inverse (condTab cb cu Fmt.f32) (liftT ax) (liftT ay))[(1 : Fin 2)]).b[(1 : Fin 2)]
-          = XQ.fin q := by
-  refine ⟨Witness.cb, Witness.cu, Witness.ax, Witness.ay, Witness.hyp,
-    bI Fmt.f32 Witness.cb Witness.cu Witness.ax Witness.ay 1 1, Witness.bI11_neg, ?_⟩
-  rw [C05_refines Witness.hyp, condTab_get, liftT_getElem]
-
-/-! ### 8. non-vacuity -/
+/-! ### 7. non-vacuity -/
 
 /-- 2×3: two conditionals with different uncertainty; outcome `y₀` is equally likely (1/2) under both
     values of `X`, the other two outcomes are not -/
@@ -368,6 +367,7 @@ example : InvHyp (n := 2) (m := 3) ![![1/4, 1/8, 1/8], ![3/8, 1/16, 5/16]] ![1/2
   constructor <;>
     simp [Fin.sum_univ_two, Fin.sum_univ_three, Fin.forall_fin_succ] <;> norm_num
 
+/-- … whose base rate on `Y` satisfies the extra hypothesis of `C05_wprop_one` -/
 example (f : Fmt) : ∀ y : Fin 3, f.eps < (![1/2, 1/4, 1/4] : Fin 3 → ℚ) y := by
   have := eps_lt_quarter f
   intro y; fin_cases y <;> simp <;> linarith
@@ -388,6 +388,16 @@ example : InvHyp (n := 2) (m := 3) ![![1/2, 1/2, 0], ![1/4, 3/4, 0]] ![0, 0] ![1
     ![1/3, 1/3, 1/3] := by
   constructor <;>
     simp [Fin.sum_univ_two, Fin.sum_univ_three, Fin.forall_fin_succ] <;> norm_num
+
+/-- 2×3 with a zero base rate on `y₁` (skipped by `max_uncertainty` and by `max_u_yx`) -/
+example : InvHyp (n := 2) (m := 3) ![![1/2, 1/4, 0], ![0, 1/2, 1/4]] ![1/4, 1/4] ![1/3, 2/3]
+    ![1/2, 0, 1/2] := by
+  constructor <;>
+    simp [Fin.sum_univ_two, Fin.sum_univ_three, Fin.forall_fin_succ] <;> norm_num
+
+/-- 2×2 with a base rate on `y₀` inside the guard band (2⁻²⁴ ≤ ε at `f32`): the input on which the
+    model before fix e624e49 returned a negative belief mass (SLV/Props/PinnedC05.lean) -/
+example : InvHyp Witness.cb Witness.cu Witness.ax Witness.ay := Witness.hyp
 
 /-- an opinion on `Y` for the abduction theorems -/
 example : WF (n := 3) ![1/4, 1/4, 0] (1/2) ![1/2, 1/4, 1/4] := by
